@@ -602,3 +602,197 @@ Proof.
   now apply Hone with s1.
 Qed.
 
+
+(** * A discarded reply never deserved a requestor that is still connected *)
+
+(** what a step does to the key table, the router's sinks, the queue and the discarded replies *)
+Inductive disc_effect (s s' : rst) : Prop :=
+| DE_same : rsinks s' = rsinks s -> h_keys (rgh s') = h_keys (rgh s) -> next_id s' = next_id s ->
+            rqueue s' = rqueue s -> h_used (rgh s') = h_used (rgh s) ->
+            h_reps_discarded (rgh s') = h_reps_discarded (rgh s) -> disc_effect s s'
+| DE_evict lab : rsinks s' = remove_label lab (rsinks s) -> h_keys (rgh s') = h_keys (rgh s) -> next_id s' = next_id s ->
+            rqueue s' = rqueue s -> h_used (rgh s') = h_used (rgh s) ->
+            h_reps_discarded (rgh s') = h_reps_discarded (rgh s) -> disc_effect s s'
+| DE_adopt l : rqueue s = QClient l :: rqueue s' -> rsinks s' = rsinks s ++ [(next_id s, l)] ->
+            h_keys (rgh s') = h_keys (rgh s) ++ [(next_id s, l)] -> next_id s' = next_id s + 1 ->
+            h_used (rgh s') = h_used (rgh s) -> h_reps_discarded (rgh s') = h_reps_discarded (rgh s) -> disc_effect s s'
+| DE_pop q : rqueue s = q :: rqueue s' -> rsinks s' = rsinks s -> h_keys (rgh s') = h_keys (rgh s) -> next_id s' = next_id s ->
+            h_used (rgh s') = h_used (rgh s) -> h_reps_discarded (rgh s') = h_reps_discarded (rgh s) -> disc_effect s s'
+| DE_enqueue q : memb (rlabel_of q) (h_used (rgh s)) = false -> rqueue s' = rqueue s ++ [q] ->
+            h_used (rgh s') = rlabel_of q :: h_used (rgh s) -> rsinks s' = rsinks s -> h_keys (rgh s') = h_keys (rgh s) ->
+            next_id s' = next_id s -> h_reps_discarded (rgh s') = h_reps_discarded (rgh s) -> disc_effect s s'
+| DE_discard f : route s f = None -> h_reps_discarded (rgh s') = h_reps_discarded (rgh s) ++ [(f, next_id s)] ->
+            rsinks s' = rsinks s -> h_keys (rgh s') = h_keys (rgh s) -> next_id s' = next_id s ->
+            rqueue s' = rqueue s -> h_used (rgh s') = h_used (rgh s) -> disc_effect s s'.
+
+Lemma rinternal_disc s s' : rinternal s = Some s' -> disc_effect s s'.
+Proof.
+  intros H. unfold rinternal in H.
+  crush_matches H; injection H as <-;
+    first [ solve [apply DE_same; rsimp; auto]
+          | solve [eapply DE_adopt; rsimp; eauto]
+          | solve [eapply DE_pop; rsimp; eauto]
+          | solve [eapply DE_discard; rsimp; eauto] ].
+Qed.
+
+Lemma rstep_raw_disc s e s' : rstep_raw s e = Some s' -> disc_effect s s'.
+Proof.
+  intros H. unfold rstep_raw, router_pass in H.
+  crush_matches H; injection H as <-;
+    first [ solve [apply DE_same; rsimp; auto]
+          | solve [eapply DE_evict; rsimp; eauto]
+          | solve [eapply DE_enqueue; rsimp; eauto; match goal with Hb : _ || _ = false |- _ => apply orb_false_iff in Hb; tauto end] ].
+Qed.
+
+Lemma lookup_key_in_nodup k lab l : NoDup (map fst l) -> In (k, lab) l -> lookup_key k l = Some lab.
+Proof.
+  induction l as [|[k' lab'] l IH]; cbn [map fst lookup_key]; intros Hnd Hin; [contradiction|].
+  inversion Hnd as [|? ? Hnot Hnd']; subst. destruct Hin as [Hin|Hin].
+  - injection Hin as -> ->. now rewrite N.eqb_refl.
+  - destruct (N.eqb_spec k k') as [->|Hne]; [|now apply IH].
+    exfalso. apply Hnot. change k' with (fst (k', lab)). now apply in_map.
+Qed.
+
+(** what the third clause of [c02_replies_ok] says about one discarded reply *)
+Definition discard_justified (s : rst) (fn : frame * N) : Prop :=
+  match fst fn with
+  | FMsg m =>
+    match m_cid m with
+    | Some (CKey k) =>
+      snd fn <= k \/
+      match lookup_key k (h_keys (rgh s)) with Some lab => ~ In lab (labels (rsinks s)) | None => True end
+    | _ => True
+    end
+  | _ => True
+  end.
+
+Record DInv (s : rst) : Prop := {
+  d_sub : forall k lab, In (k, lab) (rsinks s) -> In (k, lab) (h_keys (rgh s));
+  d_lt : forall k lab, In (k, lab) (h_keys (rgh s)) -> k < next_id s;
+  d_keys : NoDup (map fst (h_keys (rgh s)));
+  d_labs : NoDup (map snd (h_keys (rgh s)));
+  d_used : forall k lab, In (k, lab) (h_keys (rgh s)) -> In lab (h_used (rgh s)) /\ ~ In lab (qlabels (rqueue s));
+  d_qused : forall l, In l (qlabels (rqueue s)) -> In l (h_used (rgh s));
+  d_qnodup : NoDup (qlabels (rqueue s));
+  d_cnt : forall fn, In fn (h_reps_discarded (rgh s)) -> snd fn <= next_id s;
+  d_disc : forall fn, In fn (h_reps_discarded (rgh s)) -> discard_justified s fn }.
+
+Lemma dinv_init : DInv rinit.
+Proof. constructor; cbn; intros; try contradiction; try constructor. Qed.
+
+Lemma justified_same s s' fn :
+  h_keys (rgh s') = h_keys (rgh s) -> (forall lab, In lab (labels (rsinks s')) -> In lab (labels (rsinks s))) ->
+  discard_justified s fn -> discard_justified s' fn.
+Proof.
+  intros Hk Hl. unfold discard_justified. rewrite Hk.
+  destruct (fst fn) as [m|c|t]; auto. destruct (m_cid m) as [[k|j]|]; auto.
+  intros [H|H]; [now left|right]. destruct (lookup_key k (h_keys (rgh s))); auto.
+Qed.
+
+Lemma labels_remove lab0 l lab : In lab (labels (remove_label lab0 l)) -> In lab (labels l).
+Proof.
+  unfold labels, remove_label. intros H. apply in_map_iff in H as (p & Hp & Hin).
+  apply filter_In in Hin as [Hin _]. apply in_map_iff. now exists p.
+Qed.
+
+Lemma dinv_effect s s' : DInv s -> disc_effect s s' -> DInv s'.
+Proof.
+  intros [Dsub Dlt Dk Dl Du Dq Dn Dc Dd] E.
+  destruct E as [Hs Hk Hn Hq Hu Hd|lab0 Hs Hk Hn Hq Hu Hd|l Hq Hs Hk Hn Hu Hd|q Hq Hs Hk Hn Hu Hd
+                |q Hfresh Hq Hu Hs Hk Hn Hd|f Hroute Hd Hs Hk Hn Hq Hu].
+  - (* same *)
+    constructor; rewrite ?Hs, ?Hk, ?Hn, ?Hq, ?Hu, ?Hd; auto.
+    intros fn Hin. apply (justified_same s s'); auto. now rewrite Hs.
+  - (* evict *)
+    constructor; rewrite ?Hs, ?Hk, ?Hn, ?Hq, ?Hu, ?Hd; auto.
+    + intros k lab Hin. apply Dsub. unfold remove_label in Hin. now apply filter_In in Hin as [Hin _].
+    + intros fn Hin. apply (justified_same s s'); auto. rewrite Hs. intros lab. apply labels_remove.
+  - (* adopt a requestor *)
+    assert (Hlq : In l (qlabels (rqueue s))) by (rewrite Hq; now left).
+    assert (Hlnew : ~ In l (map snd (h_keys (rgh s)))).
+    { intros Hin. apply in_map_iff in Hin as ([k lab] & Hlab & Hin). cbn in Hlab. subst lab.
+      now apply (proj2 (Du _ _ Hin)). }
+    assert (Hknew : ~ In (next_id s) (map fst (h_keys (rgh s)))).
+    { intros Hin. apply in_map_iff in Hin as ([k lab] & Hkk & Hin). cbn in Hkk. subst k. apply Dlt in Hin. lia. }
+    assert (Hqn : NoDup (qlabels (rqueue s'))).
+    { rewrite Hq in Dn. cbn [qlabels map rlabel_of] in Dn. now inversion Dn. }
+    assert (Hlq' : ~ In l (qlabels (rqueue s'))).
+    { rewrite Hq in Dn. cbn [qlabels map rlabel_of] in Dn. now inversion Dn. }
+    constructor; rewrite ?Hs, ?Hk, ?Hn, ?Hu, ?Hd.
+    + intros k lab Hin. apply in_app_or in Hin as [Hin|[Hin|[]]]; apply in_or_app; [left; now apply Dsub|right; now left].
+    + intros k lab Hin. apply in_app_or in Hin as [Hin|[Hin|[]]]; [apply Dlt in Hin; lia|]. injection Hin as <- <-. lia.
+    + rewrite map_app. cbn [map fst]. now apply NoDup_app_intro_snoc.
+    + rewrite map_app. cbn [map snd]. now apply NoDup_app_intro_snoc.
+    + intros k lab Hin. apply in_app_or in Hin as [Hin|[Hin|[]]].
+      * destruct (Du _ _ Hin) as [H1 H2]. split; [exact H1|]. intros Hin'. apply H2. rewrite Hq. now right.
+      * injection Hin as <- <-. split; [now apply Dq|exact Hlq'].
+    + intros l0 Hin. apply Dq. rewrite Hq. now right.
+    + exact Hqn.
+    + intros fn Hin. specialize (Dc fn Hin). lia.
+    + intros fn Hin. pose proof (Dc fn Hin) as Hcnt. specialize (Dd fn Hin). unfold discard_justified in *. rewrite Hs, Hk.
+      destruct (fst fn) as [m|c|t]; auto. destruct (m_cid m) as [[k|j]|]; auto.
+      destruct Dd as [Hle|Hj]; [now left|].
+      destruct (N.le_gt_cases (snd fn) k) as [Hle|Hgt]; [now left|right].
+      destruct (lookup_key k (h_keys (rgh s))) as [lab|] eqn:El.
+      * rewrite (lookup_key_app_some _ _ _ _ El). unfold labels. rewrite map_app. cbn [map snd].
+        intros Hin'. apply in_app_or in Hin' as [Hin'|[Hin'|[]]]; [now apply Hj|].
+        subst lab. apply lookup_key_In in El. apply Hlnew. change l with (snd (k, l)). now apply in_map.
+      * rewrite (lookup_key_app_none _ _ _ El). cbn [lookup_key].
+        destruct (N.eqb_spec k (next_id s)) as [->|Hne]; [|exact I].
+        (* the counter recorded with the discarded reply is at most the current one *)
+        lia.
+  - (* a replier leaves the queue *)
+    assert (Hqn : NoDup (qlabels (rqueue s'))).
+    { rewrite Hq in Dn. cbn [qlabels map] in Dn. now inversion Dn. }
+    constructor; rewrite ?Hs, ?Hk, ?Hn, ?Hu, ?Hd; auto.
+    + intros k lab Hin. destruct (Du _ _ Hin) as [H1 H2]. split; [exact H1|]. intros Hin'. apply H2. rewrite Hq. now right.
+    + intros l0 Hin. apply Dq. rewrite Hq. now right.
+    + intros fn Hin. apply (justified_same s s'); auto. now rewrite Hs.
+  - (* a new registration is queued: its label is fresh *)
+    assert (Hnew : ~ In (rlabel_of q) (h_used (rgh s))) by (intros Hin; apply memb_In in Hin; congruence).
+    constructor; rewrite ?Hs, ?Hk, ?Hn, ?Hq, ?Hu, ?Hd; auto.
+    + intros k lab Hin. destruct (Du _ _ Hin) as [H1 H2]. split; [now right|].
+      unfold qlabels. rewrite map_app. cbn [map]. intros Hin'. apply in_app_or in Hin' as [Hin'|[Hin'|[]]]; [now apply H2|].
+      apply Hnew. now rewrite Hin'.
+    + intros l0 Hin. unfold qlabels in Hin. rewrite map_app in Hin. cbn [map] in Hin.
+      apply in_app_or in Hin as [Hin|[Hin|[]]]; [right; now apply Dq|now left].
+    + unfold qlabels. rewrite map_app. cbn [map]. apply NoDup_app_intro_snoc; [exact Dn|].
+      intros Hin. apply Hnew. now apply Dq.
+    + intros fn Hin. apply (justified_same s s'); auto. now rewrite Hs.
+  - (* a reply is discarded: its tag names no registered requestor *)
+    constructor; rewrite ?Hs, ?Hk, ?Hn, ?Hq, ?Hu; auto.
+    { intros fn Hin. rewrite Hd in Hin. apply in_app_or in Hin as [Hin|[Hin|[]]]; [now apply Dc|]. subst fn. cbn [snd]. lia. }
+    intros fn Hin. rewrite Hd in Hin. apply in_app_or in Hin as [Hin|[Hin|[]]].
+    + apply (justified_same s s'); auto. now rewrite Hs.
+    + subst fn. unfold discard_justified. cbn [fst snd]. rewrite Hs, Hk.
+      unfold route in Hroute. destruct f as [m|c|t]; auto. destruct (m_cid m) as [[k|j]|]; auto.
+      destruct (lookup_key k (rsinks s)) as [lab0|] eqn:El; [discriminate|].
+      right. destruct (lookup_key k (h_keys (rgh s))) as [lab|] eqn:Ek; [|exact I].
+      intros Hin. unfold labels in Hin. apply in_map_iff in Hin as ([k' lab'] & Hlab & Hin). cbn in Hlab. subst lab'.
+      (* (k', lab) is a sink, hence a key entry; (k, lab) is a key entry; labels are unique *)
+      pose proof (Dsub _ _ Hin) as Hin1. pose proof (lookup_key_In _ _ _ Ek) as Hin2.
+      assert (k' = k).
+      { clear - Dl Hin1 Hin2. induction (h_keys (rgh s)) as [|[a b] r IH]; [contradiction|].
+        cbn [map snd] in Dl. inversion Dl as [|? ? Hnot Hnd]; subst.
+        destruct Hin1 as [H1|H1], Hin2 as [H2|H2].
+        - congruence.
+        - injection H1 as -> ->. exfalso. apply Hnot. change lab with (snd (k, lab)). now apply in_map.
+        - injection H2 as -> ->. exfalso. apply Hnot. change lab with (snd (k', lab)). now apply in_map.
+        - now apply IH. }
+      subst k'.
+      (* lookup_key k (rsinks s) = None, yet (k, lab) is in rsinks *)
+      clear - El Hin. induction (rsinks s) as [|[a b] r IH]; [contradiction|].
+      cbn [lookup_key] in El. destruct (N.eqb_spec k a) as [->|Hne]; [discriminate|].
+      destruct Hin as [Hin|Hin]; [congruence|now apply IH].
+Qed.
+
+Theorem rr_discards_justified tr s : rrun rinit tr = Some s ->
+  forall fn, In fn (h_reps_discarded (rgh s)) -> discard_justified s fn.
+Proof.
+  intros H. assert (HI : DInv s).
+  { revert H. apply (lift_run DInv); [| |exact dinv_init].
+    - intros a b Ha Hi. apply (dinv_effect a b Ha). now apply rinternal_disc.
+    - intros a e b Ha Hr. apply (dinv_effect a b Ha). now apply rstep_raw_disc with e. }
+  exact (d_disc _ HI).
+Qed.
+
